@@ -330,6 +330,12 @@ fn cte_list(w: &With) -> Vec<CommonTableExpression> {
             continue;
         }
         match &*c.body {
+            // a body with a WITH clause of its own, attached from outside: the CTE's query is a `WithQuery`
+            CteBody::Sel(q) if q.with.is_some() && route(2) == 0 => {
+                let mut body = q.clone();
+                let inner = body.with.take().unwrap();
+                cte.query(with_clause(&inner).query(sel(&body)))
+            }
             CteBody::Sel(q) => cte.query(sel(q)),
             CteBody::Ins(q) => cte.query(ins(q)),
             CteBody::Upd(q) => cte.query(upd(q)),
@@ -365,7 +371,7 @@ fn cycle_of(w: &With) -> Option<Cycle> {
 }
 
 pub fn with_clause(w: &With) -> WithClause {
-    let mut wc = WithClause::new();
+    let mut wc = if route(2) == 0 { Query::with() } else { WithClause::new() };
     wc.recursive(w.recursive);
     for c in cte_list(w) {
         wc.cte(c);
